@@ -276,6 +276,7 @@ func (x *exec) run(ri int, r RunSpec, final bool) {
 // Run executes the whole history and evaluates the oracle.
 func Run(c *Case) *vkit.Outcome {
 	o := &vkit.Outcome{}
+	storekit.SetVariant(vkit.HashOf(c))
 	x := &exec{c: c, o: o, swr: map[string]bool{}, during: map[int][]string{}}
 	if err := x.open(); err != nil {
 		o.Failf("", "open: %v", err)
